@@ -815,9 +815,18 @@ def partition_case(open_, method, het, tdep, nsc, pseed):
     rr = random.Random(pseed)
     g = rr.choice([0.5, 1.0, 1.5])
     H0 = qutip.num(N) + g * (a + a.dag())
-    H = qutip.QobjEvo([H0, [a + a.dag(), lambda t: 0.5 + t]]) if tdep else H0
-    sc = [rr.choice([0.5, 0.7, 1.0]) * a] + ([0.3 * qutip.num(N)] if nsc == 2 else [])
-    cops = [0.5 * a] if open_ else []
+    kap = rr.choice([0.5, 0.7, 1.0])
+    if tdep:
+        # H, the monitored and the unmonitored operators all depend on time
+        H = qutip.QobjEvo([H0, [a + a.dag(), lambda t: 0.5 + t]])
+        sc = [qutip.QobjEvo([kap * a, lambda t: 1 + 2 * t])]
+        cops = [qutip.QobjEvo([0.5 * a, lambda t: 1 + 4 * t])] if open_ else []
+    else:
+        H = H0
+        sc = [kap * a]
+        cops = [0.5 * a] if open_ else []
+    if nsc == 2:
+        sc.append(0.3 * qutip.num(N))
     dt, per, nint = 2.0 ** -6, 2, 6
     tl = [k * per * dt for k in range(nint + 1)]
     cls = qutip.SMESolver if open_ else qutip.SSESolver
@@ -858,10 +867,44 @@ def partition_case(open_, method, het, tdep, nsc, pseed):
         runs = {"start+step in one go": chained([], True),
                 "two chained pieces (cut after 6 steps), same solver": chained([3], True),
                 "three chained pieces (cuts after 4 and 8 steps), fresh solvers": chained([2, 4], False)}
+    # ---- output grids of other coarseness over the same dt and the same
+    # noise stream: every step (12 intervals), every 3rd, every 4th, one
+    # interval of 12 steps; states at common times must be bitwise equal to
+    # those of run A (output every 2nd step).  Also with the monitored
+    # operator reading the Wiener process (feedback), where restarts are not
+    # comparable but output grids are.
+    def grid_run(per_, feedback):
+        cls_ = cls
+        sc_ = list(sc)
+        if feedback:
+            sc_[0] = qutip.QobjEvo([kap * a, lambda t, W: 1 + 2 * t + 0.25 * W(t)[0]],
+                                   args={"W": cls_.WienerFeedback()})
+        s_ = cls_(H, sc_, heterodyne=het, options=opts, **kw)
+        tl_ = [k * per_ * dt for k in range(nint * per // per_ + 1)]
+        return s_.run(st0, tl_, ntraj=1, seeds=[mk()]).trajectories[0].states
+
+    grid_bad = []
+    with warnings.catch_warnings():
+        warnings.simplefilter("ignore")
+        for feedback in (False, True):
+            base = A if not feedback else grid_run(2, True)
+            for per_ in (1, 3, 4, 12):
+                X = grid_run(per_, feedback)
+                total = nint * per
+                for k_, st_ in enumerate(X):
+                    step_ = k_ * per_
+                    if step_ % 2 == 0:
+                        d_ = float(np.abs(st_.full() - base[step_ // 2].full()).max())
+                        if d_ != 0.0:
+                            grid_bad.append(("output every %d steps%s" % (
+                                per_, " with Wiener feedback" if feedback else ""), d_, step_))
+                            break
     desc = {"open": open_, "method": method, "het": het, "time_dependent_H": tdep,
             "n_sc_ops": nsc, "pseed": pseed, "H": "num(3) + %g (a + a^dag)%s" % (
                 g, " + (0.5 + t)(a + a^dag)" if tdep else ""),
-            "sc_ops": [str(c.full().tolist()) for c in sc], "c_ops": "0.5 a" if open_ else "none",
+            "sc_ops": "%g a%s%s" % (kap, " (1 + 2t)" if tdep else "",
+                                    ", 0.3 num" if nsc == 2 else ""),
+            "c_ops": ("0.5 a" + (" (1 + 4t)" if tdep else "")) if open_ else "none",
             "state0": "fock 2", "dt": dt, "tlist": tl, "stream": vals, "stream_unit": unit}
     bad = []
     for name, X in runs.items():
@@ -869,6 +912,7 @@ def partition_case(open_, method, het, tdep, nsc, pseed):
         if len(A) != len(X) or any(v != 0.0 for v in d):
             k = next(i for i, v in enumerate(d) if v != 0.0)
             bad.append((name, max(d), k))
+    bad += grid_bad
     return desc, bad
 
 
@@ -897,9 +941,10 @@ def partition_consistency(ctx, rng, dist):
                         name, mx, k = bad[0]
                         ctx.violation(
                             "sode:partition:" + tag, "one-go-vs-chained-differs",
-                            "the same noise stream gives different %s trajectories: run() in one "
-                            "go vs %s differ by %.3g (first at output index %d) - state is "
-                            "carried across steps inside the integrator" % (method, name, mx, k),
+                            "the same noise stream gives different %s trajectories: run() with "
+                            "output every 2 steps vs %s differ by %.3g (first at index %d) - "
+                            "the trajectory depends on how it is cut into integrate() calls"
+                            % (method, name, mx, k),
                             {"kind": "partition", "case": desc, "tdep": tdep, "nsc": nsc,
                              "differences": [(n_, m_, k_) for n_, m_, k_ in bad]})
 
@@ -1221,6 +1266,106 @@ def history_oracle(ctx, rng, dist):
                         ctx.violation(site, sig, msg, {"kind": "history", "case": desc,
                                                        "step": step})
 
+
+# ---------------------- which time every internal step is evaluated at
+def step_time_case(open_, method, den, targets, dt):
+    """Drive one real integrator over the output times targets*dt/den with a
+    Hamiltonian whose coefficient records every time it is evaluated at;
+    return, per integrate() call, the sorted set of step indices
+    floor((t - t0)/dt) seen (the index pos+N of the end point, which the
+    implicit schemes and Explicit15 with one operator also evaluate, is
+    dropped)."""
+    import qutip
+    N = 2
+    log = []
+
+    def rec(t):
+        log.append(float(t))
+        return 1.0
+    H = qutip.QobjEvo([qutip.sigmaz(), [qutip.sigmax(), rec]])
+    sc = [0.5 * qutip.sigmam()]
+    cls = qutip.SMESolver if open_ else qutip.SSESolver
+    s = cls(H, sc, heterodyne=False, options={"method": method, "dt": dt, "progress_bar": ""})
+    st0 = qutip.fock_dm(N, 0) if open_ else qutip.basis(N, 0)
+    seen = []
+    err = None
+    with warnings.catch_warnings():
+        warnings.simplefilter("ignore")
+        s.start(st0, 0., seed=[FakeGen([1, -1, 2, 0, -2, 1] * 200, 2.0 ** -6)])
+        del log[:]
+        pos_before = 0.0
+        for m in targets:
+            try:
+                s.step(m * dt / den)
+            except ValueError as e:
+                err = str(e)[:40]
+                break
+            idx = sorted(set(int(np.floor(t / dt)) for t in log))
+            seen.append(idx)
+            del log[:]
+    return seen, err
+
+
+def step_time_correspondence(ctx, rng, dist):
+    combos = [(True, m) for m in ALL_SME] + [(False, m) for m in ALL_SSE]
+    reps = 1 if ctx.quick else 6
+    cases = []
+    for rep in range(reps):
+        for open_, method in combos:
+            den = rng.choice([1, 2, 4])
+            targets, cur = [], 0
+            for _ in range(rng.choice([2, 3, 4])):
+                cur += rng.choice([den, 2 * den, 3 * den, 5 * den, den + den // 2, 4 * den])
+                targets.append(cur)
+            cases.append((open_, method, den, targets, rng.choice([0.0625, 0.03125])))
+    exprs = ["(int_plan %s 0 %s, times_observe %s %s)" % (
+        cpos(c[2]), clist(c[3], cnat), cpos(c[2]), clist(c[3], cnat)) for c in cases]
+    try:
+        vals = vlib.coq_eval_values("cases_C17_times", HEADER, exprs, chunk=200)
+    except RuntimeError as e:
+        ctx.violation("corr:C17:times-model-eval", "coqc", "step-time model evaluation failed",
+                      {"log": str(e)}, found_input=False)
+        return
+    dd = dist.setdefault("step_times", {})
+    for (open_, method, den, targets, dt), v in zip(cases, vals):
+        tag = "%s/%s" % ("sme" if open_ else "sse", method)
+        dd[tag] = dd.get(tag, 0) + 1
+        plan, mtimes = vlib.parse_coq_value(v)
+        plan = [list(p_) if isinstance(p_, tuple) else [p_] for p_ in plan]
+        mtimes = _lists(mtimes)
+        try:
+            seen, err = step_time_case(open_, method, den, targets, dt)
+        except Exception as e:
+            ctx.violation("sode:step-times:" + tag, "raises:" + type(e).__name__,
+                          "stepping over the output grid raised %r" % (e,),
+                          {"kind": "steptimes", "open": open_, "method": method, "den": den,
+                           "targets": targets, "dt": dt})
+            continue
+        # model: one entry per PStep item (skipped intervals evaluate nothing new)
+        want, it, pos = [], iter(mtimes), 0
+        for p_ in plan:
+            if p_[0] == "PStep":
+                want.append(next(it))
+                pos += p_[1]
+            elif p_[0] == "PSkip":
+                want.append([])
+        got = []
+        pos = 0
+        for p_, idx in zip(plan, seen):
+            n_ = p_[1] if p_[0] == "PStep" else 0
+            got.append([k for k in idx if k != pos + n_] if n_ else [])
+            pos += n_
+        ctx.count_case(("steptimes", open_, method, den, tuple(targets), dt))
+        ctx.cov["traces_validated_against_impl"] += 1
+        if got != want or bool(err) != any(p_[0] == "PErr" for p_ in plan):
+            ctx.violation("corr:sode:step-times:" + tag, "internal-step-times-differ",
+                          "the times at which %s evaluates the Hamiltonian during integrate() "
+                          "are not t0 + k dt for the consecutive internal steps k: per "
+                          "integrate() call, step indices seen %r, expected %r"
+                          % (method, got, want),
+                          {"kind": "steptimes", "open": open_, "method": method, "den": den,
+                           "targets": targets, "dt": dt, "seen": seen, "model": want})
+
 # ----------------------------------------------------------------------- run
 def report_wiener_call(ctx, case, r, model_agrees):
     """Classify a failure of W(t): the known defect is the one the faithful
@@ -1514,6 +1659,7 @@ def run(ctx):
                       {"methods": ms, "example": type_errors[ms[0]], "kind": "typeerror"})
     skipped_step_case(ctx)
     partition_consistency(ctx, rng, dist)
+    step_time_correspondence(ctx, rng, dist)
     history_oracle(ctx, rng, dist)
     try:
         strong_order_check(ctx)
@@ -1651,6 +1797,11 @@ def replay(ctx, payload):
                               "current is %d" % (op[1], i, pv, cur),
                               dict(d, impl_provenance=prov))
                 break
+    elif kind == "steptimes":
+        seen, err = step_time_case(d["open"], d["method"], d["den"], d["targets"], d["dt"])
+        if seen == d.get("seen"):            # the recorded observation reproduces
+            ctx.violation(payload["site"], payload["signature"],
+                          "step indices seen per integrate() call: %r" % (seen,), dict(d))
     elif kind == "history":
         c = d.get("case") or d
         desc, found = history_case(c["open"], c["method"], c["het"], c["feedback"], c["hseed"])
